@@ -109,15 +109,16 @@ class Harness(cm.BaseA):
     def canon(self, W, config):
         parts = []
         for n, lw in sorted(W["lw"].items()):
-            parts.append(repr(lw._labels).encode())
-            parts += [a.tobytes() for a in lw._history]
-            parts.append(lw._volumes.tobytes())
+            hist = lw.history
+            parts.append(repr([l for l, _ in hist]).encode())
+            parts += [np.asarray(a, dtype=float).tobytes() for _, a in hist]
+            parts.append(lw.volumes.astype(float).tobytes())
         return b"|".join(parts)
 
     def step(self, W, ev, config):
         op = ev[0]
         lws = W["lw"]
-        old = {n: (list(lw._labels), list(lw._history), [a.copy() for a in lw._history]) for n, lw in lws.items()}
+        old = {n: ([l for l, _ in lw.history], [a for _, a in lw.history], [a.copy() for _, a in lw.history]) for n, lw in lws.items()}
         vol_obj = {n: lw.volumes for n, lw in lws.items()}
         vol_copy = {n: a.copy() for n, a in vol_obj.items()}
         hist_prop = {n: lw.history for n, lw in lws.items()}
@@ -148,7 +149,7 @@ class Harness(cm.BaseA):
         changed = False
         for n, lw in lws.items():
             labels, objs, copies = old[n]
-            newl, newh = lw._labels, lw._history
+            newl, newh = [l for l, _ in lw.history], [a for _, a in lw.history]
             # append-only: the old entries are a prefix
             if len(newh) < len(objs) or newl[: len(labels)] != labels or any(
                 not np.array_equal(a, b) for a, b in zip(newh[: len(objs)], copies)
@@ -225,7 +226,7 @@ class Harness(cm.BaseA):
             mine = lw.volumes
             keep = mine.copy()
             mine[...] = -1.0  # what the caller does to its copy is its own business
-            if not np.array_equal(lw.volumes, keep) or not np.array_equal(lw._history[-1], keep):
+            if not np.array_equal(lw.volumes, keep) or not np.array_equal(lw.history[-1][1], keep):
                 V.append(("C11/snapshot-mutated", f"writing into the array returned by {n}.volumes changed the labware"))
         if changed:
             res["nontrivial"] = self.canon(W, config)
